@@ -258,3 +258,52 @@ Proof.
       * apply Forall_map. apply Forall_forall. intros; apply repr_bool_chars; lia.
     + simpl; lia.
 Qed.
+
+(* ------------------------------------------------------------------ uuid5 yields 16 bytes *)
+
+Lemma word_bytes_wf : forall w, length (word_bytes w) = 4%nat /\ Forall (fun b => b < 256) (word_bytes w).
+Proof.
+  intros w. split; [reflexivity|]. unfold word_bytes.
+  repeat constructor; apply N.mod_lt; lia.
+Qed.
+
+Lemma sha1_wf : forall m, length (sha1 m) = 20%nat /\ Forall (fun b => b < 256) (sha1 m).
+Proof.
+  intros m. unfold sha1.
+  destruct (sha_blocks _ _ _) as [[[[h0 h1] h2] h3] h4].
+  split.
+  - rewrite !app_length. repeat rewrite (proj1 (word_bytes_wf _)). reflexivity.
+  - repeat apply Forall_app_intro; apply word_bytes_wf.
+Qed.
+
+Lemma log2_lt8 : forall a, a < 256 -> N.log2 a < 8.
+Proof.
+  intros a Ha. destruct (N.eq_dec a 0) as [->|Hz]; [reflexivity|].
+  apply N.log2_lt_pow2; [lia|]. exact Ha.
+Qed.
+
+Lemma lor_lt_256 : forall a b, a < 256 -> b < 256 -> N.lor a b < 256.
+Proof.
+  intros a b Ha Hb. destruct (N.eq_dec (N.lor a b) 0) as [E|E]; [rewrite E; reflexivity|].
+  apply (N.log2_lt_pow2 (N.lor a b) 8); [lia|]. rewrite N.log2_lor.
+  apply N.max_lub_lt; apply log2_lt8; assumption.
+Qed.
+
+Lemma land_lt_256 : forall a m, m < 256 -> N.land a m < 256.
+Proof.
+  intros a m Hm. destruct (N.eq_dec (N.land a m) 0) as [E|E]; [rewrite E; reflexivity|].
+  apply (N.log2_lt_pow2 (N.land a m) 8); [lia|].
+  eapply N.le_lt_trans; [apply N.log2_land|]. apply N.min_lt_iff. right. apply log2_lt8; assumption.
+Qed.
+
+Theorem uuid5_wf : forall s, wf_uuid (uuid5 s).
+Proof.
+  intros s. unfold uuid5. destruct (sha1_wf (NS_TYPE_ID ++ s)) as [L F].
+  remember (sha1 (NS_TYPE_ID ++ s)) as d. clear Heqd.
+  do 21 (destruct d as [|? d]; simpl in L; try discriminate).
+  repeat match goal with Hf : Forall _ (_ :: _) |- _ => inversion Hf; subst; clear Hf end.
+  unfold uuid5_patch, wf_uuid. cbn [firstn length]. split; [reflexivity|].
+  repeat constructor; auto.
+  - apply lor_lt_256; [apply land_lt_256; reflexivity|reflexivity].
+  - apply lor_lt_256; [apply land_lt_256; reflexivity|reflexivity].
+Qed.
